@@ -1009,17 +1009,42 @@ fn chk_cldb(prog_bytes: &[u8], envsel: u8) -> Option<Value> {
         let mut rows: Vec<i64> = vec![];
         let mut failure = false;
         let mut steps = 0;
+        let mut false_row: Option<String> = None;
         while !run.is_ended() && steps < 200000 {
             steps += 1;
             if let Some(out) = run.step(&mut a) {
                 if let Some(r) = out.get("Row") { rows.push(r.parse().unwrap_or(-1)); }
                 if out.contains_key("Failure") { failure = true; }
+                // a row that reports an operator, its arguments and a value must be true of the consensus evaluator
+                if let (Some(op), Some(args), Some(val)) = (out.get("Operator"), out.get("Arguments"), out.get("Value")) {
+                    if false_row.is_none() && op.chars().all(|c| c.is_ascii_digit()) {
+                        let mut b = clvmr::Allocator::new();
+                        let parsed = chialisp::classic::clvm_tools::binutils::assemble(&mut b, args).ok().and_then(|n| {
+                            let mut items = vec![]; let mut cur = n;
+                            loop { match b.sexp(cur) { clvmr::allocator::SExp::Pair(f, r) => { items.push(f); cur = r; } clvmr::allocator::SExp::Atom => break } }
+                            Some(items)
+                        });
+                        let want = chialisp::classic::clvm_tools::binutils::assemble(&mut b, val).ok().and_then(|n| clvmr::serde::node_to_bytes(&b, n).ok());
+                        if let (Some(items), Some(want)) = (parsed, want) {
+                            let texts: Vec<String> = items.iter().map(|i| format!("(q . {})", chialisp::classic::clvm_tools::binutils::disassemble(&b, *i, Some(0)))).collect();
+                            let call = format!("({} {})", op, texts.join(" "));
+                            if let Ok(cn) = chialisp::classic::clvm_tools::binutils::assemble(&mut b, &call) {
+                                let nil = b.nil();
+                                let r2 = Rc::new(DefaultProgramRunner::new());
+                                let got = r2.run_program(&mut b, cn, nil, None).ok().and_then(|r| clvmr::serde::node_to_bytes(&b, r.1).ok());
+                                if got.is_some() && got != Some(want) { false_row = Some(format!("row {}: operator {} on arguments {} is reported with value {}, the consensus evaluator gives {:?}", out.get("Row").cloned().unwrap_or_default(), op, args, val, got)); }
+                            }
+                        }
+                    }
+                }
             }
         }
+        if let Some(fr) = false_row { return Some((cons, None, false, vec![-7], true)).map(|mut x: (Option<Vec<u8>>, Option<Vec<u8>>, bool, Vec<i64>, bool)| { x.1 = Some(fr.clone().into_bytes()); x }); }
         let fin = run.final_result().and_then(|v| chialisp::compiler::clvm::convert_to_clvm_rs(&mut a, v).ok()).and_then(|n| clvmr::serde::node_to_bytes(&a, n).ok());
         Some((cons, fin, failure, rows, run.is_ended()))
     });
     match res {
+        Ok(Some((_cons, Some(msg), _, rows, _))) if rows == vec![-7] => Some(hit(json!({"program": prog_bytes, "env": envsel}), "every row that reports operator, arguments and value is true of the consensus evaluator".into(), String::from_utf8_lossy(&msg).to_string(), "CldbRun::step rows vs clvmr run_program of (operator . quoted arguments)")),
         Ok(Some((cons, fin, failure, rows, ended))) => {
             let consecutive = rows.iter().enumerate().all(|(i, r)| *r == rows[0] + i as i64);
             let agree = match (&cons, &fin) { (Some(c), Some(f)) => c == f && !failure, (None, _) => failure || fin.is_none(), (Some(_), None) => false };
@@ -1194,8 +1219,9 @@ pub fn search(name: &str, seed: u64) -> Value {
         "cldb" => {
             let mut progs = stepper_programs();
             for hex in ["ff10ffff0105ffff010b80", "ff02ffff01ff10ff02ffff010180ffff04ffff0107ff808080", "ff03ffff0101ffff0102ffff010380", "ff08ffff010580", "ff0bffff0183666f6f80", "ff12ffff0103ffff10ffff0102ffff01038080"] { progs.push(hexv(hex)); }
-            for p in progs.iter() { for e in 0..3u8 { if let Some(v) = chk_cldb(p, e) { return v; } } }
-            nf("debugger runs to the consensus result (or fails exactly when consensus fails) with consecutive rows on the enumerated programs x 3 environments")
+            for t in ["(c 5 (i 2 (q . 1) (q . 2)))", "(c (i 2 (q . 1) (q . 2)) 5)", "(+ (i 2 (q . 10) (q . 20)) (f 1))", "(c (a (q . (+ 2 5)) 1) (q . 77))", "(i (i 2 () (q . 1)) (q . 8) (q . 9))"] { if let Some(b) = asm_bytes(t) { progs.push(b); } }
+            for p in progs.iter() { for e in 0..3u8 { if skipped(&json!({"program": p, "env": e})) { continue; } if let Some(v) = chk_cldb(p, e) { return v; } } }
+            nf("debugger runs to the consensus result (or fails exactly when consensus fails) with consecutive rows, and every row with operator, arguments and value is true of the consensus evaluator, on the enumerated programs x 3 environments (recorded findings skipped)")
         }
         "scoping" => {
             let cases: Vec<(&str, &str, &str)> = vec![
@@ -1497,6 +1523,7 @@ pub fn run_input(name: &str, input: &Value) -> Value {
             step_vs_consensus(&bytes(&input["program"]), input["env"].as_u64().unwrap_or(0) as u8).unwrap_or_else(|| nf("input does not violate the contract on this tree")),
         "atom_from_stream" | "sexp_from_stream" | "int_from_bytes" | "get_u32" | "read" => chk_deser(&bytes(&input["bytes"])).unwrap_or_else(|| nf("input does not violate the contract on this tree")),
         "include_files" | "process_include" => chk_include_case(input["include_file"].as_str().unwrap_or(""), input["mode"].as_str().unwrap_or("")).unwrap_or_else(|| nf("input does not violate the contract on this tree")),
+        "cldb" => chk_cldb(&bytes(&input["program"]), input["env"].as_u64().unwrap_or(0) as u8).unwrap_or_else(|| nf("input does not violate the contract on this tree")),
         "compose_paths" => chk_compose_paths(&big(&input["p"]), &big(&input["q"])).unwrap_or_else(|| nf("input does not violate the contract on this tree")),
         _ => nf("no replayer for this obligation"),
     }
